@@ -4,20 +4,21 @@ import json, os
 V = os.path.dirname(os.path.dirname(os.path.abspath(__file__)))
 TECH = "solver-based bounded symbolic execution of the real Go code (go/ssa interpreted symbolically, SMT: z3 4.8.12 / z3 5.1.0 / cvc5 1.0), counterexamples replayed against the natively compiled code"
 claimed = {
+ "C06": ("DRAND-SIDE OBLIGATIONS ONLY. Two nodes with differently ordered participant lists run the real setupDKG and executeAndFinishDKG (startDKGExecution, asGroup, DBState.Complete, the real DKG store) around ONE ideal protocol outcome (the call dkg.NewProtocol is textually replaced by a stand-in returning the outcome the harness chose); SMT decides every branch; the assertions compare the participant->index assignment handed to the protocol and the group description, share index and public key each node records, also when the nodes complete a beacon period apart. The echo-broadcast board is driven with genuine, repeated and forged bundles (ideal Schnorr). The cryptographic content of C06 -- kyber's share/dkg protocol: shares on the public polynomial, any threshold signs -- is NOT decided (255-bit field arithmetic and a third-party multi-round protocol are outside the engine's reach); it enters as the stated assumption 'ideal outcome'.", "\u00a710.2 C06"),
  "C02": ("One-step (inductive) obligations of the append-only chain on the real store wrappers, from an arbitrary last beacon: every path of appendStore.Put / schemeStore.Put decided by SMT within the stated byte-length bounds.", "§5 C02"),
  "C01": ("Every path on which the real code forwards a partial to the aggregator, aggregates, or stores a synced beacon is executed symbolically with an ideal threshold-signature model at the kyber boundary; the harness re-verifies what reached the observation point (base store, aggregator queue) with its own verifier call.", "§5 C01"),
  "C03": ("The real aggregation loop (runAggregator as a modelled goroutine, partialCache, tbls.Recover from the dependency, real store stack) fed with symbolic partial packets; ghost state counts distinct valid partials; SMT decides every branch.", "§5 C03"),
  "C04": ("broadcastNextPartial and the real Handler.run loop (goroutine, select, catch-up sleep on a fake clock) executed symbolically for an arbitrary tick and stored head; every partial leaving through the fake client is compared with the node's clock; intake of partials beyond clock+1 is refused (shared harness with C01).", "§5 C04"),
  "C05": ("Bounded step obligations only: the five mechanisms the property names (tick emission, gap-triggered sync, catch-up emission, aggregation + notification, manager restart of stuck syncs) are one-step SMT-checked assertions on the real single-node code; 'eventually', the catch-up rate and all multi-node behaviour are NOT decided.", "§5 C05, §6"),
- "C07": ("Switch point of share/group in the vault through the real callback store, rejection of old-epoch partials after the switch, unchanged chain info, refusal of misaligned transition times; chain-hash independence from membership is C17.", "§5 C07"),
- "C08": ("Every DBState transition method and ValidateProposal executed symbolically from an arbitrary stored state against the protocol's transition relation and rule list kept in the harness.", "§5 C08"),
- "C09": ("messageForSigning over single-field perturbations of the terms, and Process.Packet on forged proposals whose signer and listed keys are symbolic choices, with ideal signatures at the kyber boundary.", "§5 C09"),
- "C13": ("Crash points as a symbolic choice: the process is abandoned at the k-th persistence operation (key-folder writes around DKG completion; bbolt Update before/after commit while beacons are stored) and the real load code runs on what survived.", "§5 C13"),
+ "C07": ("Switch point of share/group in the vault through the real callback store, rejection of old-epoch partials after the switch, unchanged chain info, refusal of misaligned transition times; aggregation across a threshold-changing transition on a staying member (newChainStore wiring, running aggregator, TransitionNewGroup, then t_new-1 / t_new / t_old new-epoch partials); chain-hash independence from membership is C17.", "\u00a75 C07"),
+ "C08": ("Every DBState transition method and ValidateProposal executed symbolically from an arbitrary stored state against the protocol's transition relation and rule list kept in the harness; histories of k operator commands / gossip packets (valid, stale, forged, expired) through the real Process.Command / Process.Packet over the real DKG BoltStore (bbolt model), with probes that the last completed epoch stays intact and usable; completion and failure of an execution through the real executeAndFinishDKG with an ideal protocol outcome.", "\u00a75 C08, \u00a710.2"),
+ "C09": ("messageForSigning over single-field perturbations of the terms; Process.Packet on forged proposals whose signer and listed keys are symbolic choices; accept/reject/abort/execute packets with symbolic claimed sender, named participant and signing key on a node with a pending proposal in the real DKG store -- with ideal signatures at the kyber boundary.", "\u00a75 C09"),
+ "C13": ("Crash points as a symbolic choice: the process is abandoned at the k-th persistence operation (key-folder writes around DKG completion; every bbolt Update before/after commit while beacons are stored and while executeAndFinishDKG records a completed or failed resharing in the real DKG store) and the real load code runs on what survived.", "\u00a75 C13"),
  "C15": ("Secrets (long-term key, share) are symbolic inputs; responses, DKG status, participant records and logger arguments are checked for syntactic dependence on them (hash/signature outputs are fresh terms, i.e. declassified); files and the DKG database are checked for owner-only mode at the time secret-dependent content is written.", "§5 C15"),
  "C19": ("readBeaconID / getBeaconProcessFromRequest / AddBeaconHandler / RemoveBeaconProcess and the HTTP handler table on a multi-chain daemon after a symbolic stop/reload history, request id and chain hash symbolic.", "§5 C19"),
  "C14": ("DKG endpoint functions on arbitrary protobuf-valid packets (every nested pointer nil/non-nil, every oneof variant) run as a request goroutine under a modelled recovery interceptor; the engine itself reports self-deadlocks, blocked-forever requests, escaped panics, leaked locks.", "§5 C14"),
  "C10": ("SyncManager.Sync / tryNode / CheckPastBeacons executed symbolically against peers whose behaviour is a symbolic choice, in every peer order; only verified in-order beacons reach the base store.", "§5 C10"),
- "C11": ("beacon.SyncChain over the real callbackStore and in-memory store with an environment writer appending at every store access point; the interleaving of appends with scan and live phase is a set of symbolic integers.", "§5 C11"),
+ "C11": ("beacon.SyncChain over the real callbackStore and in-memory store with an environment writer appending at every store access point; the interleaving of appends with scan and live phase is a set of symbolic integers; a live stream whose client stalls during bursts around the real per-stream queue capacity and then resumes.", "\u00a75 C11"),
  "C12": ("callbackStore with a consumer that never returns, queue filled to the real capacity; partialCache flooded by symbolic (signer, round, previous) sequences with MaxPartialsPerNode scaled to 3.", "§5 C12"),
  "C16": ("TimeOfRound / NextRound / CurrentRound and time.Duration.Seconds executed symbolically; integers as mathematical integers with explicit mod-2^64 wrap, float64 ops as reals under IEEE-754 rounding axioms; every assertion decided unsat by a solver portfolio within the stated ranges.", "§5 C16"),
  "C17": ("Chain hash and group hash preimages built by the real code over symbolic parameters; hashes are injective uninterpreted functions, so digest equality is preimage equality; determinism and one-parameter sensitivity are SMT obligations.", "§5 C17"),
